@@ -290,6 +290,32 @@ struct Q { x: u32, y: u32 }
   buf.data[3] = w;
 }
 """),
+("store_then_conditional_store", HDR + """
+@compute @workgroup_size(1) fn main() {
+  var v: u32;
+  v = buf.data[0];
+  if (buf.data[1] > 3u) { v = v + 10u; }
+  buf.data[2] = v;
+  var w: u32;
+  w = buf.data[3];
+  switch (buf.data[4] & 3u) {
+    case 0u: { w = 100u; }
+    case 1u: { w = w + 1u; }
+    default: { }
+  }
+  buf.data[5] = w;
+}
+"""),
+("store_then_store_in_nested_block", HDRI + """
+@compute @workgroup_size(1) fn main() {
+  var a: i32;
+  a = buf.data[0];
+  {
+    if (a > 2) { a = a - 2; } else { if (a < 1) { a = 9; } }
+  }
+  buf.data[1] = a;
+}
+"""),
 ("local_in_loop_mem2reg", HDR + """
 @compute @workgroup_size(1) fn main() {
   var s: u32 = 0u;
